@@ -34,7 +34,7 @@ RULE = (
     "(A) messages = all messages emitted by 6 real programs (incl. failure reports) + synthetic "
     "messages over 23 field values (incl. a lone surrogate) x 6 timestamps x 3 levels, x 2 formatters; (B) all sequences of <= L "
     "lines over an 18-line alphabet (incl. a line with a UTF-8 signature, integers beyond 64 bits, NaN/Infinity tokens) x 2 formatters through _main(); (A2) all ordered pairs (thorough: triples) of messages over 14 values that are equal without being the same JSON value (1, 1.0, True, 0.0, -0.0, False, ...), formatted one after the other in one process; (C) filter expressions {J, SKIP-if-"
-    "type, J['task_uuid'], datetime projection, J.get('value') (null results)} over the message pool in blocks, written to {StringIO, UTF-8 text stream, ASCII text stream}; non-trivial = every "
+    "type, J['task_uuid'], datetime projection, J.get('value') (null results)} over the message pool in blocks, written to {StringIO, UTF-8 text stream, ASCII text stream}, plus an on-demand input that inspects the output before every line and a damaged line at position 0/2/5; non-trivial = every "
     "case except the single-field default message"
 )
 ASSUMPTIONS = [
@@ -201,6 +201,9 @@ def cases(unit, tier):
             for start in range(0, n, 25):
                 for stream in range(len(STREAMS)):
                     yield ["filter", expr, start, stream]
+        for expr in (0, 1, 2):
+            for damaged_at in (None, 0, 2, 5):
+                yield ["filterstream", expr, damaged_at]
 
 
 # ---------------------------------------------------------------------------
@@ -435,7 +438,58 @@ def check_filter(expr_i, start, stream=0):
     return viol
 
 
+def check_filter_streaming(expr_i, damaged_at):
+    """eliot.filter works line by line: what it has written when it asks for the next input line is the
+    result for every line read so far, and a damaged line in the middle does not take back what was
+    already written."""
+    msgs = pool()[:6]
+    lines = [json.dumps(m).encode() + b"\n" for m in msgs]
+    if damaged_at is not None:
+        lines[damaged_at] = b'{"task_uuid": "broken\n'
+    out = io.StringIO()
+    seen_at_pull = []
+
+    def incoming():
+        for l in lines:
+            seen_at_pull.append(out.getvalue().count("\n"))
+            yield l
+
+    class FakeSys(object):
+        argv = ["eliot-filter", EXPRS[expr_i]]
+        stdin = incoming()
+        stdout = out
+        stderr = io.StringIO()
+
+    raised = None
+    try:
+        ef.main(FakeSys)
+    except BaseException as e:
+        raised = e
+    keep = lambda m: not (expr_i == 1 and m.get("message_type") == "app:m")
+    upto = len(msgs) if damaged_at is None else damaged_at
+    want_counts = []
+    n = 0
+    for i in range(len(msgs) if damaged_at is None else damaged_at + 1):
+        want_counts.append(n)
+        if i < upto and keep(msgs[i]):
+            n += 1
+    viol = []
+    if seen_at_pull[: len(want_counts)] != want_counts:
+        viol.append(("filter:not-line-by-line", {"written_before_each_input_line": seen_at_pull, "want": want_counts, "expr": EXPRS[expr_i]}))
+    if damaged_at is not None:
+        if raised is None:
+            viol.append(("filter:damaged-line-accepted", {}))
+        if out.getvalue().count("\n") != n:
+            viol.append(("filter:output-before-a-damaged-line-lost", {"lines_written": out.getvalue().count("\n"), "want": n}))
+    elif raised is not None:
+        viol.append(("filter:raised", {"error": repr(raised)[:200]}))
+    return viol
+
+
 def run_case(case):
+    if case[0] == "filterstream":
+        viol = check_filter_streaming(case[1], case[2])
+        return Result(outcome=["filterstream", case[1], case[2], len(viol)], nontrivial=True, violations=viol[:2])
     if case[0] == "fmt":
         msg = pool()[case[1]]
         if case[2] == 0:
